@@ -13,6 +13,12 @@ k/(k+1) = `Infretis.Lattice.hit (k-1)` (theorem `crossing_closed_form`), where
 value for the Kish effective number of paths) — the floor makes an under-estimated block σ
 unable to raise an alarm.
 
+Calibration (2·10⁵-step runs, 8 configurations, on the tree with the length rule repaired): the
+jackknife σ is flat within ±15 % between 10 and 160 blocks (rows of the data file are one per
+accepted path and nearly uncorrelated beyond a few hundred rows), so 20 and 40 blocks (≥ 20 as the
+property demands) are on the plateau; the 24 z-scores had rms 0.85, max |z| 1.7, i.e. σ_eff is
+slightly conservative, as intended.
+
 Both tiers: the same comparison for *pooled* relative deviations (inverse-variance weights
 over all configurations) of a-priori groups of columns — A: shooting column of [0+]; B: shooting
 column of the last ensemble; C: other shooting columns; D: wire-fencing columns; and the signed
@@ -412,8 +418,9 @@ def run(ctx):
         "process pool replaced by a synchronous runner behind a pickle boundary; completion order random and independent of the job's outcome",
         "os.fsync disabled and logging disabled in the child processes (durability/diagnostics only)",
         "σ from delete-one-block jackknife (20 and 40 contiguous blocks of data rows, larger of the two) with a binomial "
-        "floor at the exact value; bias smaller than 6 σ_eff is not detected "
-        "(quick ≈ 8–12 % relative per estimate, thorough ≈ 2–4 % per estimate and < 1 % pooled)",
+        "floor at the exact value; calibrated on 2e5-step runs (σ flat within 15 % from 10 to 160 blocks; z rms 0.85 on "
+        "unbiased code); bias smaller than 6 σ_eff is not detected (quick ≈ 9–30 % relative per estimate and 3–6 % per "
+        "pooled group, thorough ≈ 3–6 % per estimate and ≈ 1–1.5 % per pooled group)",
         "the wire-fencing kernel's reversibility is not proved in the model (only its weights, C10)",
     ]
 
